@@ -109,7 +109,7 @@ def with_die_kills(sc: dict, ch: Choices) -> dict:
     for k, how in (sc.get('fail') or {}).items():
         if how == 'die':
             phase = ft.pick(['run', 'pre', 'run'])
-            kills.append({'node': int(k), 'phase': phase, 'k': ft.draw(3), 'how': 'kill'})
+            kills.append({'node': int(k), 'phase': phase, 'k': ft.draw(3), 'how': ft.pick(['kill', 'exit0', 'kill', 'exit1'])})
     sc['kills'] = kills
     return sc
 
@@ -253,11 +253,15 @@ class Check:
 
     def record(self, sc, out, vs, ch, extra=None):
         capped = out.kind == 'abort' and out.abort in ('step-cap', 'vtime-cap', 'wait-cap')
+        stale = out.kind == 'abort' and out.abort == 'stale-os-object'
+        if stale:
+            # harness limitation, decides nothing (see simos.live)
+            vs = []
         if capped and not self.owns_liveness:
             # a run that hit a simulator cap decides nothing about this property (only C11 / C14 own liveness)
             vs = []
         r = result_record(self.id, sc, out, vs, ch, extra)
-        if capped and not self.owns_liveness:
+        if (capped and not self.owns_liveness) or stale:
             r['inconclusive'] = 1
         r['sample'] = {'spec': compact_spec(sc), 'completion_order': r['order'], 'faults': r['faults'],
                        'outcome': r['outcome'], 'schedule_digest': r['sched_digest']}
@@ -367,7 +371,7 @@ class C04(Check):
                           types=[('TA', 2), ('TB', 4), ('TC', 4), ('TD', 3), ('TN', 1), ('TN1', 3), ('TP', 2)])
         sc['swarm']['gate_mode'] = 'hold'
         cfg = ch.stream('config')
-        if cfg.chance(1, 3):
+        if cfg.chance(1, 2):
             # an earlier run in the same interpreter with another worker limit
             sc['prelude'] = {'max_workers': cfg.pick([3, None, 2, 1]), 'n': 3}
         return with_die_kills(sc, ch)
@@ -403,6 +407,7 @@ class C05(Check):
 
 class C10(Check):
     id = 'C10'
+    owns_liveness = True      # the property itself states that run_tasks terminates
     principal_faults = ('task-raise',)
 
     def gen(self, ch, tier):
